@@ -22,6 +22,7 @@ from vlib import monitors, state
 
 PROP = 'C08'
 TITLE = 'tal:repeat and repeat variables'
+DEBUG_SHARDS = True      # two of sixteen shards run the library in its debug mode (vlib/runner.py)
 LEVEL = 'exploration'
 SHARDS = {'quick': 16, 'thorough': 16}
 FLOOR = {'quick': 5000, 'thorough': 30000}
